@@ -41,11 +41,15 @@ pub struct DropPlan {
     /// the handle is dropped by a panic unwinding through the caller's scope (caught further up)
     #[serde(default)]
     pub by_panic: bool,
+    /// plain, non-detached Popen: what the caller does with the handle before letting it go
+    /// (0 nothing, 1 kill(), 2 terminate(), 3 kill() then wait(), 4 poll(), 5 kill() then poll())
+    #[serde(default)]
+    pub before_drop: u8,
 }
 
 impl Default for DropPlan {
     fn default() -> Self {
-        DropPlan { owner: Owner::Popen, detached: false, consume: None, progs: vec![], input_len: 0, pipes: [false; 3], via_clone: false, by_panic: false }
+        DropPlan { owner: Owner::Popen, detached: false, consume: None, progs: vec![], input_len: 0, pipes: [false; 3], via_clone: false, by_panic: false, before_drop: 0 }
     }
 }
 
@@ -101,6 +105,13 @@ pub fn generate(rng: &mut Rng, plan: &mut Plan, _index: u64) {
     d.detached = rng.chance(1, 5);
     d.via_clone = rng.chance(1, 4);
     d.by_panic = rng.chance(1, 6);
+    if d.owner == Owner::Popen && !d.detached && rng.chance(1, 3) {
+        d.before_drop = 1 + rng.below(5) as u8;
+        if rng.chance(1, 2) {
+            plan.knobs.faults.kill_lag_ns = *rng.pick(&[20_000u64, 2_000_000, 300_000_000]);
+            plan.knobs.batch = "faulty".into();
+        }
+    }
     d.consume = match rng.below(4) {
         0 => Some(0),
         1 => Some(1 + rng.below(5000) as usize),
@@ -311,6 +322,31 @@ pub fn run(_plan: &Plan, d: &DropPlan) -> FamOut {
                     drop(p.stdin.take());
                     drop(p.stdout.take());
                     drop(p.stderr.take());
+                    // whatever was done with the handle before: once it is gone, the child has been reaped
+                    match d.before_drop {
+                        1 | 3 | 5 => {
+                            let _ = lib("Popen::kill", || p.kill());
+                        }
+                        2 => {
+                            let _ = lib("Popen::terminate", || p.terminate());
+                        }
+                        4 => {
+                            let _ = lib("Popen::poll", || p.poll());
+                        }
+                        _ => {}
+                    }
+                    match d.before_drop {
+                        3 => {
+                            let _ = lib("Popen::wait", || p.wait());
+                        }
+                        5 => {
+                            let _ = lib("Popen::poll", || p.poll());
+                        }
+                        _ => {}
+                    }
+                    if d.before_drop != 0 {
+                        sim().k.probe("handle_used_before_drop");
+                    }
                     let w0 = sim().k.wait_log.len();
                     let b0 = seq();
                     let _ = if d.by_panic { lib_drop_unwinding("drop(Popen)", p) } else { lib_drop("drop(Popen)", p) };
